@@ -109,6 +109,14 @@ def compare_results(ep, ep2, nvals, etot, fmax):
     return None
 
 
+CLI_CORPUS = [
+    ("gas only", "CONSUMO, CAL, GASNATURAL, 100.0, 120.5, 80.25\nDEMANDA, CAL, 90.0, 100.0, 70.0\n"),
+    ("biomass and solar thermal", "1, CONSUMO, ACS, BIOMASA, 50.0, 60.0\n1, CONSUMO, ACS, TERMOSOLAR, 20.0, 10.0\n1, PRODUCCION, TERMOSOLAR, 20.0, 10.0\n1, SALIDA, ACS, 60.0, 60.0\nDEMANDA, ACS, 60.0, 60.0\n"),
+    ("district network", "2, CONSUMO, CAL, RED1, 300.0\n2, CONSUMO, REF, RED2, 100.0\n"),
+    ("electricity only", "3, CONSUMO, ILU, ELECTRICIDAD, 100.0, 90.0\n3, PRODUCCION, EL_INSITU, 40.0, 120.0\n"),
+]
+
+
 def run(tier, seed):
     prop = "C18"
     R = check.Result(prop, tier, seed)
@@ -264,6 +272,35 @@ def run(tier, seed):
     # ---------------------------------------------------------------- the program: --oc / --of, then the saved files again
     d = cliflow.workdir("c18")
     try:
+        # corpus first: buildings whose saved factors lack a carrier the reader used to insist on (fix 1505fba)
+        for ci, (name, ctext) in enumerate(CLI_CORPUS):
+            for loc in ("PENINSULA", "CANARIAS"):
+                cp = os.path.join(d, "k%d.csv" % ci)
+                open(cp, "w", encoding="utf-8").write(ctext)
+                oc, of = os.path.join(d, "koc%d.csv" % ci), os.path.join(d, "kof%d.csv" % ci)
+                a1 = ["-c", cp, "-l", loc, "--oc", oc, "--of", of, "--json", os.path.join(d, "ka%d.json" % ci)]
+                r1 = cliflow.run_cli(a1, d)
+                if r1["exit"] != 0:
+                    R.harness_errors.append("corpus building %s is refused: %s" % (name, r1["stderr"][-200:]))
+                    continue
+                r2 = cliflow.run_cli(["-c", oc, "-f", of, "--json", os.path.join(d, "kb%d.json" % ci)], d)
+                R.evaluations += 1
+                stats["cli_corpus_pairs"] += 1
+                what = None
+                if r2["exit"] != 0:
+                    what = "the files saved with --oc / --of are refused (exit %s): %s" % (r2["exit"], r2["stderr"][-200:])
+                else:
+                    ja = json.load(open(os.path.join(d, "ka%d.json" % ci)))
+                    jb = json.load(open(os.path.join(d, "kb%d.json" % ci)))
+                    for key in ("ren", "nren", "co2"):
+                        x, y = Fraction(ja["balance"]["we"]["b"][key]), Fraction(jb["balance"]["we"]["b"][key])
+                        if abs(x - y) > Fraction(1, 2) + abs(x) * Fraction(1, 1000):
+                            what = "weighted energy B (%s) from the saved files is %s, originally %s" % (key, core.fstr(y), core.fstr(x))
+                if what:
+                    if len(R.violations) < 4:
+                        R.violations.append((what.split(" (")[0][:70], {"what": what, "components": ctext, "args": [x.replace(d, "<dir>") for x in a1]}))
+                else:
+                    R.cases_validated += 1
         for i, (cid, (job, r)) in enumerate(list(keep.items())[: (8 if quick else 100)]):
             if not isinstance(job["factors"].get("loc"), str):
                 continue
